@@ -57,16 +57,18 @@ var alsoRuns = map[string][]borrow{
 	// the marked entry lands in a store that honours its contract (C09, F2/F3); the duplicate-detection marker advances for a
 	// skipped entry (C10.U3); every entry, marked or not, is re-filed before it is applied or skipped and is folded by
 	// compaction, and restore rebuilds from it (C02.N1/N3/N4/N5); the marker and everything else survives a snapshot (C03)
-	"C07": {{prop: "C09"}, {prop: "C18", rules: []string{"F2", "F3"}}, {prop: "C10", rules: []string{"U3"}}, {prop: "C02", rules: []string{"N1", "N3", "N4", "N5"}}, {prop: "C03"}},
+	"C07": {{prop: "C09"}, {prop: "C18", rules: []string{"F1", "F2", "F3"}}, {prop: "C10", rules: []string{"U3"}}, {prop: "C02", rules: []string{"N1", "N3", "N4", "N5"}}, {prop: "C03"}},
 	// "under every interleaving": the lock discipline of the output stream (C20 restricted to package outputstream)
 	// … and "returns exactly what was added": the batch codec is symmetric (C18.F4)
 	// … and readers always call the current stream (C04.P7)
 	"C08": {{prop: "C20", funcPrefix: "outputstream."}, {prop: "C18", rules: []string{"F4"}}, {prop: "C04", rules: []string{"P7"}}},
 	// entries are encoded/decoded field by field without loss
-	"C09": {{prop: "C18", rules: []string{"F1", "F2", "F3"}}},
+	// … and the store's methods run concurrently (raft's goroutines, the status pages): its lock discipline (C20 restricted to
+	// package raftstore)
+	"C09": {{prop: "C18", rules: []string{"F1", "F2", "F3"}}, {prop: "C20", funcPrefix: "raftstore."}},
 	// the tombstone written for a message of death keeps the client message id and the same slot; compaction folds it; the
 	// marker is part of the snapshot
-	"C10": {{prop: "C07", rules: []string{"D2", "D3", "D5"}}, {prop: "C02", rules: []string{"N1"}}, {prop: "C03", keyHas: "lastClientMessageId"},
+	"C10": {{prop: "C07", rules: []string{"D1", "D2", "D3", "D5"}}, {prop: "C02", rules: []string{"N1"}}, {prop: "C03", keyHas: "lastClientMessageId"},
 		{prop: "C18", rules: []string{"F1", "F2"}, keyHas: "ClientMessageId"}},
 	// instances must not share mutable package-level state: a configuration is decoded into a fresh value (C16.V3)
 	// … and an instance that raft created from a snapshot and then fed the remaining entries is one of the instances the
@@ -86,7 +88,7 @@ var alsoRuns = map[string][]borrow{
 	// … and privileges must survive a snapshot: operator flag, channel settings, member status, invitations, services links
 	"C13": {{prop: "C14", rules: []string{"M1"}, keyHas: "fresh status array"},
 		{prop: "C03", keyHasAny: []string{".Operator", ".Server", ".modes", ".Modes", ".bans", ".Bans", ".key", ".Key", ".invitedTo", ".InvitedTo", "channel.nicks", ".Nicks", ".Pass", "SolvedCaptcha"}},
-		{prop: "C14", rules: []string{"M6"}}},
+		{prop: "C14", rules: []string{"M6"}}, {prop: "C14", rules: []string{"M1"}, keyHas: "invitations"}},
 	// ended sessions leave every relation and the session table (C17.Y4)
 	// … and a restore rebuilds the derived indexes consistently (C03.K4/K4b)
 	"C14": {{prop: "C17", rules: []string{"Y4"}}, {prop: "C03", rules: []string{"K4"}}, {prop: "C03", keyHasAny: []string{"identifier literal"}}},
